@@ -370,6 +370,8 @@ func (vt *Model) resize(w int, h int) {
 	vt.lastCol = false
 	vt.activeScreen = vt.primaryScreen
 
+	// re-printing the old screen goes through the pen: keep the child's
+	pen := vt.cursor.Style
 	// transfer primary to new, skipping the last row
 	for row := 0; row < len(primary); row += 1 {
 		if row == int(last) {
@@ -389,6 +391,7 @@ func (vt *Model) resize(w int, h int) {
 			vt.nel()
 		}
 	}
+	vt.cursor.Style = pen
 	switch vt.mode.smcup {
 	case false:
 		vt.activeScreen = vt.primaryScreen
